@@ -144,9 +144,8 @@ def run(model, rep):
                   'shebang + newline + result, only under preserve_shebang and a found shebang',
                   'return value is not <shebang found in source> + "\\n" + <unparse result> under preserve_shebang (shape=%s gate=%s found=%s)' % (shape, gate, notnone),
                   key='C16.SHEB|minify-return|prefixed')
-    if os.environ.get('PMSTATIC_SHEB_ENUM', '0') == '1':   # enabled once the CR-only defect (D16) is repaired in /repo
-        sheb_enum(model, rep)
-    rep.floor('C16.SHEB', 4)
+    sheb_enum(model, rep)
+    rep.floor('C16.SHEB', 17)
 
     # ---- DEC: decode()/str(bytes)/bytes.decode on the minify path
     reach = set()
@@ -198,7 +197,7 @@ def sheb_enum(model, rep):
     from ..absint import Interp, TOP
     fs = model.func('python_minifier._find_shebang')
     shapes = ['#!/bin/sh\nx=1\n', '#!/bin/sh\r\nx=1\r\n', '#!/bin/sh\rx=1\r', '#!/bin/sh', '#!', '#!\nx=1', 'x=1\n#!/bin/sh\n', ' #!/bin/sh\nx=1', '# !/bin/sh\nx=1', '\n#!/bin/sh\n', '',
-              '#!/usr/bin/env python3 -O\nimport a\n', '#!a\n#!b\n', '#!/bin/sh\n\rx']
+              '#!/usr/bin/env python3 -O\nimport a\n', '#!a\n#!b\n', '#!/bin/sh\n\rx', '#!/usr/bin/python # -*- coding: latin-1 -*-\nx=1\n', '#!/usr/bin/python # -*- coding: utf-8 -*-\nx=1\n']
 
     def hook(I, e, args, kw, env):
         if len(args) >= 2 and isinstance(args[0], (str, bytes)) and isinstance(args[1], (str, bytes)) and type(args[0]) is type(args[1]):
@@ -223,6 +222,11 @@ def sheb_enum(model, rep):
                 raise AnalysisError('UNDECIDED: _find_shebang(%r) -> %s %s' % (arg, outs, res[0][2][:3]))
             got[kind] = list(outs)[0][1]
         ok = got['text'] in accept and got['bytes'] == got['text']
+        if ok and want is not None and re.search(r'coding[:=]\s*([-\w.]+)', got['text'] or '') and not re.search(r'coding[:=]\s*(utf-?8)', got['text'] or '', re.I):
+            # the line is re-attached verbatim (C16.SHEB minify-return), so a PEP 263 cookie written on the shebang line survives into output that is UTF-8
+            rep.violation('C16.COOKIE', fs.loc(), '_find_shebang(%r)' % s[:50], 'the preserved first line still declares a non-UTF-8 source encoding while the result is encoded as UTF-8: non-ASCII constants are read back wrongly',
+                          key='C16.COOKIE|shebang-line-cookie')
+            continue
         rep.check(ok, 'C16.SHEB', fs.loc(), '_find_shebang(%r) -> text %r, bytes %r' % (s[:30], got['text'], got['bytes']), 'the first line when it starts with #!',
                   'for the source %r the shebang found is %r (text) / %r (bytes), expected %r: %s' % (s[:30], got['text'], got['bytes'], want,
                    'everything up to the first \\n is taken, so with CR line endings the whole program is repeated in front of the output' if want and got['text'] and len(got['text']) > len(want) else 'text and bytes input disagree or a non-first line is taken'),
